@@ -2,6 +2,43 @@
 a failing input) and the coverage counters written into the evidence."""
 import re
 
+class Pv(int):
+    """a priority `v` or `v/t`: ordered by the value alone (that is the
+    priority type's Ord); `==` and hashing also look at the tag, which makes
+    priorities that tie distinguishable (which one was kept / returned)"""
+
+    def __new__(cls, v, tag=0):
+        o = int.__new__(cls, v)
+        o.tag = tag
+        return o
+
+    def __eq__(self, o):
+        return int(self) == int(o) and self.tag == getattr(o, "tag", 0)
+
+    def __ne__(self, o):
+        return not self.__eq__(o)
+
+    def __hash__(self):
+        return hash((int(self), self.tag))
+
+    def __str__(self):
+        return "%d/%d" % (int(self), self.tag) if self.tag else "%d" % int(self)
+
+    __repr__ = __str__
+
+
+def pv(tok):
+    if "/" in tok:
+        v, t = tok.split("/")
+        return Pv(int(v), int(t))
+    return Pv(int(tok))
+
+
+def _ent(e):
+    k, pl, p = e.split(":")
+    return (int(k), int(pl), pv(p))
+
+
 STATE_RE = re.compile(r"r(\d+)=(pq|dpq) m=\[([^\]]*)\] h=\[([^\]]*)\] q=\[([^\]]*)\] s=(\d+)")
 
 
@@ -17,7 +54,7 @@ def split_line(line):
         else:
             m = STATE_RE.match(p)
             if m:
-                ents = [tuple(int(x) for x in e.split(":")) for e in m.group(3).split(",") if e]
+                ents = [_ent(e) for e in m.group(3).split(",") if e]
                 heap = [int(x) for x in m.group(4).split(",") if x]
                 qp = [int(x) for x in m.group(5).split(",") if x]
                 regs[int(m.group(1))] = (m.group(2), ents, heap, qp, int(m.group(6)))
@@ -126,7 +163,7 @@ def order_violation(reg):
 def parse_elem(tok):
     if tok == "-":
         return None
-    return tuple(int(x) for x in tok.split(":"))
+    return _ent(tok)
 
 
 class Oracle:
@@ -208,9 +245,9 @@ class Oracle:
                     side = toks[2]
                     if e not in ents:
                         why = "%s returned %s which is not stored" % (name, out)
-                    elif side == "max" and e[2] != max(prios):
+                    elif side == "max" and int(e[2]) != int(max(prios)):
                         why = "%s max returned priority %d but %d is stored" % (name, e[2], max(prios))
-                    elif side == "min" and e[2] != min(prios):
+                    elif side == "min" and int(e[2]) != int(min(prios)):
                         why = "%s min returned priority %d but %d is stored" % (name, e[2], min(prios))
         if why is None and "sorted" in self.want and name == "sortedvec" and out.startswith("list") and not fused:
             r = int(toks[1])
@@ -402,7 +439,7 @@ class ContentOracle(Oracle):
                 return None if got == [] else "%s left contents %s" % (name, got)
             n = int(t[3]) if name != "fromiter" else int(t[5])
             base = 4 if name != "fromiter" else 6
-            l = [(int(t[base + 3 * i]), int(t[base + 3 * i + 1]), int(t[base + 3 * i + 2])) for i in range(n)]
+            l = [(int(t[base + 3 * i]), int(t[base + 3 * i + 1]), pv(t[base + 3 * i + 2])) for i in range(n)]
             exp = {}
             for k, pl, p in l:
                 if name == "fromvec":
@@ -425,7 +462,7 @@ class ContentOracle(Oracle):
             return (max(ps) if side == "max" else min(ps)) if ps else None
 
         if name in ("push", "pushinc", "pushdec"):
-            k, pl, p = int(t[2]), int(t[3]), int(t[4])
+            k, pl, p = int(t[2]), int(t[3]), pv(t[4])
             exp = dict(bm)
             if k not in bm:
                 exp[k] = (pl, p)
@@ -435,19 +472,19 @@ class ContentOracle(Oracle):
                 do = name == "push" or (name == "pushinc" and p > op_) or (name == "pushdec" and p < op_)
                 if do:
                     exp[k] = (opl, p)
-                    want = "optp %d" % op_
+                    want = "optp %s" % op_
                 else:
-                    want = "optp %d" % p
+                    want = "optp %s" % p
             if out != want:
                 return "%s returned %r, the map semantics gives %r" % (name, out, want)
             return self.same(a, exp, name)
         if name in ("chg", "chgby", "chgadd"):
-            k, v = int(t[2]), int(t[3])
+            k, v = int(t[2]), pv(t[3])
             exp = dict(bm)
             if k in bm:
                 opl, op_ = bm[k]
-                exp[k] = (opl, op_ + v if name == "chgadd" else v)
-                want = ("optp %d" % op_) if name == "chg" else "bool 1"
+                exp[k] = (opl, Pv(int(op_) + int(v), op_.tag) if name == "chgadd" else v)
+                want = ("optp %s" % op_) if name == "chg" else "bool 1"
             else:
                 want = "optp -" if name == "chg" else "bool 0"
             if out != want:
@@ -458,7 +495,7 @@ class ContentOracle(Oracle):
             exp = dict(bm)
             want = "opte -"
             if k in bm:
-                want = "opte %d:%d:%d" % ((k,) + bm[k])
+                want = "opte %d:%d:%s" % ((k,) + bm[k])
                 del exp[k]
             if out != want:
                 return "remove returned %r, expected %r" % (out, want)
@@ -470,7 +507,7 @@ class ContentOracle(Oracle):
                 exp[k] = (int(t[3]), bm[k][1])
             if k in bm:
                 pl, p = exp[k]
-                want = ("optp %d" % p) if name == "getprio" else "opte %d:%d:%d" % (k, pl, p)
+                want = ("optp %s" % p) if name == "getprio" else "opte %d:%d:%s" % (k, pl, p)
             else:
                 want = "optp -" if name == "getprio" else "opte -"
             if out != want:
@@ -488,7 +525,7 @@ class ContentOracle(Oracle):
             if name == "pop":
                 if x is None:
                     return None if e is None else "pop on empty returned %r" % out
-                if e is None or e[0] not in bm or bm[e[0]] != (e[1], e[2]) or e[2] != x:
+                if e is None or e[0] not in bm or bm[e[0]] != (e[1], e[2]) or int(e[2]) != int(x):
                     return "pop %s returned %r which is not a stored %s" % (side, out, side)
                 del exp[e[0]]
                 return self.same(a, exp, name)
@@ -496,18 +533,18 @@ class ContentOracle(Oracle):
                 npl = int(t[3])
                 if x is None:
                     return None if e is None else "peek_mut on empty returned %r" % out
-                if e is None or e[0] not in bm or bm[e[0]][1] != x or e[2] != x or e[1] != npl:
+                if e is None or e[0] not in bm or bm[e[0]][1] != e[2] or int(e[2]) != int(x) or e[1] != npl:
                     return "peek_%s_mut returned %r, not a stored %s with the written payload" % (side, out, side)
-                exp[e[0]] = (npl, x)
+                exp[e[0]] = (npl, e[2])
                 return self.same(a, exp, name)
             if name == "popif":
                 w, pl, bb = t[3], t[4], t[5] == "1"
                 if x is None:
                     return None if e is None else "pop_if on empty returned %r" % out
-                cands = [k for k, (_, p) in bm.items() if p == x]
+                cands = [k for k, (_, p) in bm.items() if int(p) == int(x)]
                 for k in cands:
                     opl, op_ = bm[k]
-                    wr = (int(pl) if pl != "-" else opl, int(w) if w != "-" else op_)
+                    wr = (int(pl) if pl != "-" else opl, pv(w) if w != "-" else op_)
                     exp = dict(bm)
                     if bb:
                         del exp[k]
@@ -527,7 +564,7 @@ class ContentOracle(Oracle):
                     tbl.setdefault(int(t[4 + 2 * i]), (None, t[5 + 2 * i] == "1"))  # first entry wins
                 else:
                     wv = t[5 + 3 * i]
-                    tbl.setdefault(int(t[4 + 3 * i]), (None if wv == "-" else int(wv), t[6 + 3 * i] == "1"))
+                    tbl.setdefault(int(t[4 + 3 * i]), (None if wv == "-" else pv(wv), t[6 + 3 * i] == "1"))
             exp = {}
             for k, (pl, p) in bm.items():
                 wv, keep = tbl.get(k, (None, d))
@@ -536,7 +573,7 @@ class ContentOracle(Oracle):
             return self.same(a, exp, name)
         if name == "extend":
             n = int(t[4])
-            l = [(int(t[5 + 3 * i]), int(t[6 + 3 * i]), int(t[7 + 3 * i])) for i in range(n)]
+            l = [(int(t[5 + 3 * i]), int(t[6 + 3 * i]), pv(t[7 + 3 * i])) for i in range(n)]
             exp = {k: p for k, (pl, p) in bm.items()}
             for k, pl, p in l:
                 exp[k] = p
@@ -562,7 +599,7 @@ class ContentOracle(Oracle):
         if name == "eq":
             o = self.ents(before, int(t[2]))
             if o is not None and before[r][0] == before[int(t[2])][0]:
-                same = {k: p for k, pl, p in b} == {k: p for k, pl, p in o}
+                same = {k: int(p) for k, pl, p in b} == {k: int(p) for k, pl, p in o}  # PartialEq of P: the value
                 if out != "bool %d" % (1 if same else 0):
                     return "eq returned %r for queues whose (item, priority) sets are %s" % (out, "equal" if same else "different")
         if name in ("clone", "clonefrom") and out == "unit":
